@@ -368,3 +368,43 @@ func init() {
 		return nil
 	}
 }
+
+func init() {
+	// sort.Slice / sort.SliceStable use reflectlite.Swapper; modelled as a stable insertion sort that
+	// calls the real less function and swaps the elements of the slice in place.
+	stable := func(e *Exec, fn *ssa.Function, a []Value, c *Frame) Value {
+		iv, ok := a[0].(IfaceV)
+		if !ok {
+			e.unsupported("sort.Slice on non-interface")
+		}
+		sl, ok := iv.v.(SliceV)
+		if !ok {
+			e.runtimePanic("sort: argument is not a slice")
+		}
+		if sl.len < 2 {
+			return nil
+		}
+		arr := sl.arr
+		for i := 1; i < sl.len; i++ {
+			for j := i; j > 0; j-- {
+				r := e.callFunction(a[1], []Value{e.tt.BVConst(uint64(j), 64), e.tt.BVConst(uint64(j-1), 64)})
+				t := r.(*Term)
+				var lt bool
+				if t.Const {
+					lt = t.U == 1
+				} else {
+					lt = e.Branch(t)
+				}
+				if !lt {
+					break
+				}
+				e.touch(arr)
+				av := arr.val.(ArrayV)
+				av[sl.off+j], av[sl.off+j-1] = av[sl.off+j-1], av[sl.off+j]
+			}
+		}
+		return nil
+	}
+	intrinsics["sort.SliceStable"] = stable
+	intrinsics["sort.Slice"] = stable
+}
